@@ -42,8 +42,8 @@ REPS = {
 EMPTY_REPS = {"empty-left[+,+]": ([1, 1], (), (1, 3)), "empty-right[+,+]": ([1, 1], (0, 2), ())}
 
 
-def spec_product(signature, xk, yk, keep=lambda kx, ky, s: True, keyout=lambda kx, ky: kx ^ ky, sign=None):
-    sign = sign or (lambda kx, ky: spec_sign(kx, ky, signature))
+def spec_product(signature, xk, yk, keep=lambda kx, ky, s: True, keyout=lambda kx, ky: kx ^ ky, sign=None, basis=None):
+    sign = sign or (basis_sign_fn(signature, basis) if basis else (lambda kx, ky: spec_sign(kx, ky, signature)))
     res = {}
     for kx in xk:
         for ky in yk:
@@ -56,9 +56,23 @@ def spec_product(signature, xk, yk, keep=lambda kx, ky, s: True, keyout=lambda k
     return res
 
 
-def operands(signature, xk, yk, extra_attrs=None, lazy=False):
+BASIS_2DPGA = ["e", "e1", "e2", "e0", "e20", "e01", "e12", "e012"]   # re-read from the source by C14.named-bases
+BASIS_REP = ("custom basis 2DPGA-like[0,+,+]", [0, 1, 1], BASIS_2DPGA, (5, 0, 3, 6, 1, 7, 2, 4), (2, 7, 1, 4, 0, 6, 3, 5))
+
+
+def basis_sign_fn(signature, basis):
+    from ..products import basis_maps, spec_sign_basis
+    c2b, b2c, mpos = basis_maps(basis)
+    return lambda I, J: spec_sign_basis(I, J, b2c, mpos, signature)
+
+
+def operands(signature, xk, yk, extra_attrs=None, lazy=False, basis=None):
     d = len(signature)
-    alg = rep_algebra(d, extra_attrs=dict({"signs": sign_table_obj(signature, lazy=lazy), "signature": list(signature)}, **(extra_attrs or {})))
+    sign_fn = basis_sign_fn(signature, basis) if basis else None
+    attrs = {"signs": sign_table_obj(signature, lazy=lazy, sign_fn=sign_fn), "signature": list(signature),
+             "p": sum(1 for s_ in signature if s_ == 1), "q": sum(1 for s_ in signature if s_ == -1),
+             "r": sum(1 for s_ in signature if s_ == 0)}
+    alg = rep_algebra(d, extra_attrs=dict(attrs, **(extra_attrs or {})), basis=basis)
     x = mv_obj(alg, tuple(xk), [pv_atom(f"a{k}") for k in xk])
     y = mv_obj(alg, tuple(yk), [pv_atom(f"b{k}") for k in yk])
     return alg, x, y
@@ -80,11 +94,12 @@ def result_polys(out, c, fn):
     return ("return", res)
 
 
-def run_product(ctx, repo, codegen_name, signature, xk, yk, c, unary=False, lazy=False):
+def run_product(ctx, repo, codegen_name, signature, xk, yk, c, unary=False, lazy=False, basis=None):
     fn = ctx.func(f"codegen.{codegen_name}")
-    alg, x, y = operands(signature, xk, yk, lazy=lazy)
+    alg, x, y = operands(signature, xk, yk, lazy=lazy, basis=basis)
     it = make_interp(repo)
     it.algebra = alg
+    it.instance_classes["algebra"] = "algebra.Algebra"    # anything the stand-in lacks is resolved from the source
     try:
         out = it.run(f"codegen.{codegen_name}", [x] if unary else [x, y])
     except NoValue as exc:
@@ -116,7 +131,7 @@ def compare_result(ctx, c, fn, got, want, what):
                   (f" (+{len(problems) - 4} more)" if len(problems) > 4 else ""), fn, wrong_blades=len(problems))
 
 
-@rule("C02.table", props=["C02"], min_instances=5, mutants=[
+@rule("C02.table", props=["C02", "C14"], min_instances=6, mutants=[
     ("overwrite instead of accumulate", ("codegen", "                res[key_out] += termstr", "                res[key_out] = termstr")),
     ("polarity sign < 0 kept positive", ("codegen", "termstr = vx * vy if sign > 0 else (- vx * vy)", "termstr = vx * vy if sign != 0 else (- vx * vy)")),
     ("accumulate on kx | ky", ("codegen", "def codegen_product(x, y, filter_func=None, sign_func=None, keyout_func=operator.xor):", "def codegen_product(x, y, filter_func=None, sign_func=None, keyout_func=operator.or_):")),
@@ -140,6 +155,11 @@ def table(ctx):
         c = f"codegen.{cg}#table:{rep_name}"
         got = run_product(ctx, repo, cg, signature, xk, yk, c)
         compare_result(ctx, c, fn, got, spec_product(signature, xk, yk), "geometric product")
+    # a custom basis (generators in another order, blades spelled against bit order)
+    name, signature, basis, xk, yk = BASIS_REP
+    c = f"codegen.{cg}#table:{name}"
+    got = run_product(ctx, repo, cg, signature, xk, yk, c, basis=basis)
+    compare_result(ctx, c, fn, got, spec_product(signature, xk, yk, basis=basis), "geometric product in a custom basis")
     # the same with a lazily filled sign table (the kind of table algebras above six dimensions have)
     signature, xk, yk = REPS["sparse-overlap[+,-,+]"]
     c = f"codegen.{cg}#table:lazy-sign-table"
